@@ -220,7 +220,10 @@ Ambiguous production number prediction
                 break;
             }
         }
-        Ok(result_union.into_inner())
+        let mut result_union = result_union.into_inner();
+        // The union needs the lookahead size of the deeper of both automata
+        result_union.k = std::cmp::max(result_union.k, other.k);
+        Ok(result_union)
     }
 
     fn new_state(&mut self) -> StateIndex {
